@@ -4,4 +4,5 @@ CONSTANTS
   MaxLen = 6
   MaxOps = 2
   CountsIfndef = TRUE
+  CountsCloses = TRUE
 INVARIANT EmitS
